@@ -3,10 +3,12 @@
    No proofs here.
 
    Universe: tables; columns with a type (token0 family of the SQLite type compiler output plus
-   its parenthesised arguments), nullability and a primary-key flag; named unique constraints;
-   named indexes (unique or not) over plain columns.  Names are interned as N by the harness.
-   Outside: server defaults, foreign keys, CHECK constraints, comments, unnamed constraints,
-   expression indexes, schemas other than the default one, computed / identity columns. *)
+   its parenthesised arguments), nullability, a primary-key flag and a server default (a Python
+   string or a text() expression, as a list of code points); named unique constraints; named indexes
+   (unique or not) over plain columns; named foreign keys (single- or multi-column, possibly
+   self-referential, without ON UPDATE / ON DELETE / DEFERRABLE options).  Names are interned as N.
+   Outside: CHECK constraints, comments, unnamed constraints, foreign-key options, expression
+   indexes, schemas other than the default one, computed / identity columns. *)
 From AV Require Export Base.ListSet.
 
 (* ---------------------------------------------------------------- data *)
@@ -19,7 +21,12 @@ Record ty := mkTy { ty_fam : N; ty_args : list N }.
 Definition F_NUMERIC : N := 5.
 Definition F_DECIMAL : N := 6.
 
-Record col := mkCol { c_name : N; c_ty : ty; c_null : bool; c_pk : bool }.
+(* Column.server_default: DefaultClause(arg) with arg a Python str (DLit, rendered by SQLAlchemy as a quoted SQL
+   literal) or a text() clause (DExpr, rendered verbatim); strings are lists of code points *)
+Inductive dflt := DLit (s:list N) | DExpr (s:list N).
+Definition d_txt (d:dflt) : list N := match d with DLit s | DExpr s => s end.
+
+Record col := mkCol { c_name : N; c_ty : ty; c_null : bool; c_pk : bool; c_default : option dflt }.
 
 (* unique constraint (name, columns) / index (name, columns, unique) *)
 Inductive cons := Uq (n:N) (cols:list N) | Ix (n:N) (cols:list N) (u:bool).
@@ -28,13 +35,27 @@ Definition k_cols (k:cons) : list N := match k with Uq _ c => c | Ix _ c _ => c 
 Definition is_ix (k:cons) : bool := match k with Ix _ _ _ => true | Uq _ _ => false end.
 Definition is_uq (k:cons) : bool := negb (is_ix k).
 
-Record table := mkTable { t_name : N; t_cols : list col; t_cons : list cons }.
+(* ForeignKeyConstraint(cols, [rtable.rcol ...], name=...) *)
+Record fk := mkFk { f_name : N; f_cols : list N; f_rtable : N; f_rcols : list N }.
+
+Record table := mkTable { t_name : N; t_cols : list col; t_cons : list cons; t_fks : list fk }.
 Definition schema := list table.
 
 (* ---------------------------------------------------------------- equality tests *)
 Definition ty_eqb (a b:ty) : bool := N.eqb (ty_fam a) (ty_fam b) && list_eqb N.eqb (ty_args a) (ty_args b).
+Definition opt_eqb {A} (e:A->A->bool) (a b:option A) : bool :=
+  match a, b with Some x, Some y => e x y | None, None => true | _, _ => false end.
+Definition dflt_eqb (a b:dflt) : bool :=
+  match a, b with
+  | DLit s, DLit s' | DExpr s, DExpr s' => list_eqb N.eqb s s'
+  | _, _ => false
+  end.
 Definition col_eqb (a b:col) : bool :=
-  N.eqb (c_name a) (c_name b) && ty_eqb (c_ty a) (c_ty b) && Bool.eqb (c_null a) (c_null b) && Bool.eqb (c_pk a) (c_pk b).
+  N.eqb (c_name a) (c_name b) && ty_eqb (c_ty a) (c_ty b) && Bool.eqb (c_null a) (c_null b) && Bool.eqb (c_pk a) (c_pk b)
+  && opt_eqb dflt_eqb (c_default a) (c_default b).
+Definition fk_eqb (a b:fk) : bool :=
+  N.eqb (f_name a) (f_name b) && list_eqb N.eqb (f_cols a) (f_cols b) && N.eqb (f_rtable a) (f_rtable b)
+  && list_eqb N.eqb (f_rcols a) (f_rcols b).
 Definition cons_eqb (a b:cons) : bool :=
   match a, b with
   | Uq n c, Uq n' c' => N.eqb n n' && list_eqb N.eqb c c'
@@ -53,36 +74,41 @@ End Keyed.
 
 (* ---------------------------------------------------------------- abstract operations *)
 (* The operation objects autogenerate emits, reduced to what they say:
-   CreateTableOp (columns + inline unique constraints; its indexes follow as separate CreateIndexOp),
-   DropTableOp, AddColumnOp, DropColumnOp, AlterColumnOp (existing_nullable / existing_type /
-   modify_nullable / modify_type), CreateIndexOp | CreateUniqueConstraintOp (OpAddCons),
+   CreateTableOp (columns + inline unique constraints and foreign keys; its indexes follow as separate CreateIndexOp),
+   DropTableOp, AddColumnOp, DropColumnOp, AlterColumnOp (existing_nullable / existing_type / existing_server_default /
+   modify_nullable / modify_type / modify_server_default: None = untouched, Some None = default removed), CreateIndexOp | CreateUniqueConstraintOp (OpAddCons),
    DropIndexOp | DropConstraintOp(type_='unique') (OpDropCons, ix = true for an index). *)
 Inductive op :=
 | OpCreateTable (t:table)
 | OpDropTable (t:N)
 | OpAddColumn (t:N) (c:col)
 | OpDropColumn (t:N) (c:N)
-| OpAlterColumn (t c:N) (ex_null:bool) (ex_ty:ty) (m_null:option bool) (m_ty:option ty)
+| OpAlterColumn (t c:N) (ex_null:bool) (ex_ty:ty) (ex_default:option dflt)
+                (m_null:option bool) (m_ty:option ty) (m_default:option (option dflt))
 | OpAddCons (t:N) (k:cons)
-| OpDropCons (t:N) (ix:bool) (n:N).
+| OpDropCons (t:N) (ix:bool) (n:N)
+| OpAddFk (t:N) (f:fk)            (* CreateForeignKeyOp *)
+| OpDropFk (t:N) (n:N).           (* DropConstraintOp(type_='foreignkey') *)
 
 Definition op_table (o:op) : N :=
   match o with
   | OpCreateTable t => t_name t
-  | OpDropTable t | OpAddColumn t _ | OpDropColumn t _ | OpAlterColumn t _ _ _ _ _ | OpAddCons t _ | OpDropCons t _ _ => t
+  | OpDropTable t | OpAddColumn t _ | OpDropColumn t _ | OpAlterColumn t _ _ _ _ _ _ _ | OpAddCons t _ | OpDropCons t _ _
+  | OpAddFk t _ | OpDropFk t _ => t
   end.
 
 (* ---------------------------------------------------------------- DDL meaning *)
-Definition alter_col (m_null:option bool) (m_ty:option ty) (c:col) : col :=
+Definition alter_col (m_null:option bool) (m_ty:option ty) (m_default:option (option dflt)) (c:col) : col :=
   mkCol (c_name c) (match m_ty with Some t => t | None => c_ty c end)
-        (match m_null with Some b => b | None => c_null c end) (c_pk c).
+        (match m_null with Some b => b | None => c_null c end) (c_pk c)
+        (match m_default with Some d => d | None => c_default c end).
 
 (* effect of an operation on the column list / on the constraint+index list of its table *)
 Definition apply_cop (o:op) (cs:list col) : list col :=
   match o with
   | OpAddColumn _ c => cs ++ [c]
   | OpDropColumn _ c => kremove c_name c cs
-  | OpAlterColumn _ c _ _ mn mt => kupdate c_name c (alter_col mn mt) cs
+  | OpAlterColumn _ c _ _ _ mn mt md => kupdate c_name c (alter_col mn mt md) cs
   | _ => cs
   end.
 Definition apply_kop (o:op) (ks:list cons) : list cons :=
@@ -91,7 +117,14 @@ Definition apply_kop (o:op) (ks:list cons) : list cons :=
   | OpDropCons _ ix n => filter (fun k => negb (Bool.eqb (is_ix k) ix && N.eqb (k_name k) n)) ks
   | _ => ks
   end.
-Definition apply_top (o:op) (t:table) : table := mkTable (t_name t) (apply_cop o (t_cols t)) (apply_kop o (t_cons t)).
+Definition apply_fop (o:op) (fs:list fk) : list fk :=
+  match o with
+  | OpAddFk _ f => fs ++ [f]
+  | OpDropFk _ n => kremove f_name n fs
+  | _ => fs
+  end.
+Definition apply_top (o:op) (t:table) : table :=
+  mkTable (t_name t) (apply_cop o (t_cols t)) (apply_kop o (t_cons t)) (apply_fop o (t_fks t)).
 
 Definition apply_op (o:op) (S:schema) : schema :=
   match o with
@@ -101,16 +134,47 @@ Definition apply_op (o:op) (S:schema) : schema :=
   end.
 Definition apply_ops (ops:list op) (S:schema) : schema := fold_left (fun s o => apply_op o s) ops S.
 
+(* ---------------------------------------------------------------- strings *)
+Definition ch_quote : N := 39.   (* ' *)
+Definition ch_dquote : N := 34.  (* double quote *)
+Definition ch_lpar : N := 40.
+Definition ch_rpar : N := 41.
+(* s = a :: mid ++ [b] with mid non-empty  (Python: re.match of ^A(.+)B$ on s, no newline in s) *)
+Definition wrapped (a b:N) (s:list N) : bool :=
+  match s with x :: r => N.eqb x a && N.eqb (last r 0%N) b && Nat.leb 2 (length r) | [] => false end.
+Definition unwrap (s:list N) : list N := removelast (tl s).
+Fixpoint dbl_quotes (s:list N) : list N :=
+  match s with [] => [] | x :: r => if N.eqb x ch_quote then x :: x :: dbl_quotes r else x :: dbl_quotes r end.
+Definition is_digit_or_dot (x:N) : bool := (N.leb 48 x && N.leb x 57) || N.eqb x 46.
+
+(* SQLiteImpl._guess_if_default_is_unparenthesized_sql_expr *)
+Definition guess_if_default_is_unparenthesized_sql_expr (expr:list N) : bool :=
+  match expr with
+  | [] => false
+  | [x] => negb (is_digit_or_dot x)                       (* ^[0-9\.]$ *)
+  | _ => if wrapped ch_quote ch_quote expr then false      (* ^'.+'$ *)
+         else if wrapped ch_lpar ch_rpar expr then false   (* ^\(.+\)$ *)
+         else true
+  end.
+
 (* ---------------------------------------------------------------- reflection *)
-(* What inspector.reflect_table / get_unique_constraints / get_indexes report for a database that was
-   created from the schema on SQLite.  On this universe every component comes back as written: the types
-   of the catalogue are in SQLite's ischema_names and re-compile to the same text, PRIMARY KEY columns are
-   NOT NULL in the model already, CONSTRAINT names of UNIQUE clauses are recovered from the stored CREATE
-   TABLE text, sqlite_autoindex_* entries are hidden by get_indexes.  The function is kept (and compared with
-   the really reflected tables on every run) because it is the place where reflection quirks live. *)
-Definition reflect_col (c:col) : col := c.
-Definition reflect_cons (k:cons) : cons := k.
-Definition reflect_table (t:table) : table := mkTable (t_name t) (map reflect_col (t_cols t)) (map reflect_cons (t_cons t)).
+(* What inspector.reflect_table (with SQLiteImpl.autogen_column_reflect listening on column_reflect) /
+   get_unique_constraints / get_indexes / get_foreign_keys report for a database created from the schema on SQLite.
+   Types, nullability, primary keys, constraint / index / foreign-key names and columns come back as written.
+   A server default comes back as the text SQLite stored: SQLAlchemy writes a Python str as a quoted literal
+   (quotes doubled) and a text() clause verbatim, SQLite's table_info drops one pair of enclosing parentheses, and
+   autogen_column_reflect then re-parenthesises what it guesses to be an unparenthesised SQL expression.
+   (Validated against the really reflected tables on every case; the theorems cover the defaults of class dflt_ok.) *)
+Definition sqlite_stored_default (d:dflt) : list N :=
+  match d with
+  | DLit s => ch_quote :: dbl_quotes s ++ [ch_quote]
+  | DExpr s => if wrapped ch_lpar ch_rpar s then unwrap s else s
+  end.
+Definition autogen_column_reflect (dflt_text:list N) : list N :=
+  if guess_if_default_is_unparenthesized_sql_expr dflt_text then ch_lpar :: dflt_text ++ [ch_rpar] else dflt_text.
+Definition reflect_default (d:dflt) : dflt := DExpr (autogen_column_reflect (sqlite_stored_default d)).
+Definition reflect_col (c:col) : col := mkCol (c_name c) (c_ty c) (c_null c) (c_pk c) (option_map reflect_default (c_default c)).
+Definition reflect_table (t:table) : table := mkTable (t_name t) (map reflect_col (t_cols t)) (t_cons t) (t_fks t).
 Definition reflect_sqlite (S:schema) : schema := map reflect_table S.
 
 (* ---------------------------------------------------------------- well-formedness (boolean) *)
@@ -118,7 +182,26 @@ Definition all_in (xs ys:list N) : bool := forallb (fun x => memN x ys) xs.
 Definition wf_cons (colnames:list N) (k:cons) : bool :=
   match k_cols k with [] => false | _ => true end && nodupb (k_cols k) && all_in (k_cols k) colnames.
 Definition wf_col (c:col) : bool := implb (c_pk c) (negb (c_null c)).
+Definition wf_fk (colnames:list N) (f:fk) : bool :=
+  match f_cols f with [] => false | _ => true end && nodupb (f_cols f) && all_in (f_cols f) colnames
+  && Nat.eqb (length (f_cols f)) (length (f_rcols f)).
 Definition wf_table (t:table) : bool :=
-  nodupb (keys c_name (t_cols t)) && nodupb (keys k_name (t_cons t))
-  && forallb wf_col (t_cols t) && forallb (wf_cons (keys c_name (t_cols t))) (t_cons t).
+  nodupb (keys c_name (t_cols t)) && nodupb (keys k_name (t_cons t)) && nodupb (keys f_name (t_fks t))
+  && forallb wf_col (t_cols t) && forallb (wf_cons (keys c_name (t_cols t))) (t_cons t)
+  && forallb (wf_fk (keys c_name (t_cols t))) (t_fks t).
 Definition wf_schemab (S:schema) : bool := nodupb (keys t_name S) && forallb wf_table S.
+
+(* the server defaults the theorems cover: no quote, double quote, parenthesis or newline inside; a Python string is
+   non-empty; a text() expression is such a run of characters (not starting or ending with a blank), or one in
+   single quotes, or one in a single pair of parentheses *)
+Definition plain_char (x:N) : bool := negb (N.eqb x ch_quote || N.eqb x ch_dquote || N.eqb x ch_lpar || N.eqb x ch_rpar || N.eqb x 10).
+Definition plain (s:list N) : bool := match s with [] => false | _ => forallb plain_char s end.
+Definition trimmed (s:list N) : bool := negb (N.eqb (hd 0%N s) 32) && negb (N.eqb (last s 0%N) 32).
+Definition dflt_ok (d:dflt) : bool :=
+  match d with
+  | DLit s => plain s
+  | DExpr s => (plain s && trimmed s) || (wrapped ch_quote ch_quote s && plain (unwrap s))
+               || (wrapped ch_lpar ch_rpar s && plain (unwrap s) && trimmed (unwrap s))
+  end.
+Definition defaults_ok (S:schema) : bool :=
+  forallb (fun t => forallb (fun c => match c_default c with Some d => dflt_ok d | None => true end) (t_cols t)) S.
